@@ -5,6 +5,7 @@ import (
 	"fmt"
 	"os"
 	"os/exec"
+	"sort"
 	"strings"
 
 	"github.com/llir/ll"
@@ -63,16 +64,18 @@ type C05Scenario struct {
 }
 
 type siteWalker struct {
-	text      string
-	funcNum   string // "%K" for the function being walked
-	firstFree map[string]int
-	declared  []string     // names of functions that are only declared
-	mdDefined map[int]bool // defined metadata IDs
-	nGlobal   int          // top-level global entities
-	maxMD     int          // largest metadata ID in the text
-	sites     []Site
-	globals   []string // names (without sigil) of named globals/functions
-	locals    []string // names of named locals, parameters, labels
+	text           string
+	funcNum        string // "%K" for the function being walked
+	firstFree      map[string]int
+	declared       []string             // names of functions that are only declared
+	mdDefined      map[int]bool         // defined metadata IDs
+	implicitComdat map[string]bool      // names of globals/functions that use the bare `comdat` form
+	comdatDefs     map[string]*ast.Node // comdat definitions by name (without sigil)
+	nGlobal        int                  // top-level global entities
+	maxMD          int                  // largest metadata ID in the text
+	sites          []Site
+	globals        []string // names (without sigil) of named globals/functions
+	locals         []string // names of named locals, parameters, labels
 }
 
 func nodeKids(n *ast.Node) []*ast.Node { return n.Children(selector.Any) }
@@ -215,6 +218,23 @@ func (w *siteWalker) walk(n *ast.Node, parent *ast.Node, idxInParent int, sameTy
 	case ll.ComdatName:
 		if parent.Type() == ll.Comdat {
 			w.add("use:comdat", n)
+		}
+		if parent.Type() == ll.ComdatDef {
+			w.comdatDefs[strings.TrimPrefix(n.Text(), "$")] = n
+		}
+	case ll.Comdat:
+		if n.Child(selector.ComdatName) == nil && parent != nil {
+			// Bare `comdat`: the comdat of the same name as the global or function.
+			var id *ast.Node
+			switch parent.Type() {
+			case ll.GlobalDecl:
+				id = parent.Child(selector.GlobalIdent)
+			case ll.FuncHeader:
+				id = parent.Child(selector.GlobalIdent)
+			}
+			if id != nil {
+				w.implicitComdat[strings.TrimPrefix(id.Text(), "@")] = true
+			}
 		}
 	case ll.MetadataID:
 		var id int
@@ -385,7 +405,7 @@ func c05Sites(name, text string) ([]Site, error) {
 	if err != nil {
 		return nil, err
 	}
-	w := &siteWalker{text: text, firstFree: map[string]int{}, mdDefined: map[int]bool{}}
+	w := &siteWalker{text: text, firstFree: map[string]int{}, mdDefined: map[int]bool{}, implicitComdat: map[string]bool{}, comdatDefs: map[string]*ast.Node{}}
 	// The first unused unnamed local ID of every function definition, from the
 	// translation of the valid module (the IDs LLVM and the library agree on).
 	if m, err := asm.ParseString(name, text); err == nil && m != nil {
@@ -423,6 +443,19 @@ func c05Sites(name, text string) ([]Site, error) {
 		}
 	}
 	w.walk(tree.Root(), tree.Root(), 0, 0)
+	// A comdat definition whose only reference may be the bare `comdat` form:
+	// renaming the definition leaves that implicit reference dangling.
+	var names []string
+	for name := range w.comdatDefs {
+		names = append(names, name)
+	}
+	sort.Strings(names)
+	for _, name := range names {
+		if w.implicitComdat[name] {
+			n := w.comdatDefs[name]
+			w.sites = append(w.sites, Site{Kind: "use:comdat (implicit; its definition renamed away)", Off: n.Offset(), End: n.Endoffset(), Text: n.Text()})
+		}
+	}
 	// Cross-namespace alternatives.
 	isIn := func(set []string, x string) bool {
 		for _, y := range set {
